@@ -832,4 +832,44 @@ theorem exploreLoop_ok (kc : PbtConst) (old : Config) (hints : List (String × N
           exact exploreOK_mono hps r1 tape1 _ (by intro x hx; simp [hx]) (exploreLoop_ok kc old hints hps tape1 r1 r2 hwf' hr)
       · cases h
 
+/-! ### small list facts -/
+
+theorem nodup_of_nodup_map {α β} (f : α → β) (l : List α) (h : (l.map f).Nodup) : l.Nodup := by
+  unfold List.Nodup at *
+  exact (List.pairwise_map.mp h).imp (fun hne e => hne (congrArg f e))
+
+theorem nodup_map_on {α β} (f : α → β) : ∀ l : List α, l.Nodup →
+    (∀ a ∈ l, ∀ b ∈ l, f a = f b → a = b) → (l.map f).Nodup
+  | [], _, _ => by simp
+  | a :: l, hn, hinj => by
+    have hn' := List.nodup_cons.mp hn
+    simp only [List.map_cons, List.nodup_cons]
+    refine ⟨?_, nodup_map_on f l hn'.2 (fun x hx y hy => hinj x (List.mem_cons_of_mem _ hx) y (List.mem_cons_of_mem _ hy))⟩
+    intro hm
+    obtain ⟨b, hb, hfb⟩ := List.mem_map.mp hm
+    have := hinj a List.mem_cons_self b (List.mem_cons_of_mem _ hb) hfb.symm
+    subst this
+    exact hn'.1 hb
+
+/-- the hyperparameter keys of a well-formed space are distinct -/
+theorem hp_keys_nodup (sp : Space) (hwf : Space.wfb sp = true) :
+    ((hpEntries sp).map Prod.fst).Nodup := by
+  simp only [Space.wfb, Bool.and_eq_true, decide_eq_true_eq] at hwf
+  have hn := hwf.2
+  clear hwf
+  induction sp with
+  | nil => simp [hpEntries]
+  | cons x sp ih =>
+    obtain ⟨k, e⟩ := x
+    simp only [List.map_cons, List.nodup_cons] at hn
+    have hsub : ∀ k', k' ∈ (hpEntries sp).map Prod.fst → k' ∈ sp.map Prod.fst := by
+      intro k' hk
+      obtain ⟨⟨k2, d2⟩, hm, rfl⟩ := List.mem_map.mp hk
+      exact List.mem_map.mpr ⟨(k2, Entry.dom d2), (mem_hpEntries sp k2 d2).mp hm, rfl⟩
+    cases e with
+    | dom d =>
+      simp only [hpEntries, List.map_cons, List.nodup_cons]
+      exact ⟨fun h => hn.1 (hsub k h), ih hn.2⟩
+    | const w => simpa [hpEntries] using ih hn.2
+
 end SyneTune.Srch
